@@ -79,6 +79,11 @@ def _observe(cache):
     return {k: (k in cache) for k in OBS}, len(cache)
 
 
+class _Unserialisable:
+    def __reduce__(self):
+        raise TypeError("cannot pickle this value")
+
+
 def run_sequence(kind, cfg, ops):
     """Execute ops on the real cache and on the model; return list of violated clauses."""
     tmp = tempfile.mkdtemp(prefix="vf_c14_") if kind == "disk" else None
@@ -129,7 +134,21 @@ def _run_sequence(kind, cfg, ops, tmp):
                 handles = [cache]
                 mem = LRUModel(cfg.get("lru_size", 2)) if cfg.get("with_lru") else None
                 continue
-            if name == "put":
+            if name == "put-fail":
+                # a put that fails while the value is serialised (shared caches pickle on put, the disk cache writes a
+                # file) is not a put: the cache afterwards is the cache before, and no later operation raises
+                serialises = kind == "disk" or (cfg.get("shared") and cfg.get("cloudpickle", True))
+                if serialises:
+                    try:
+                        if kind == "hybrid":
+                            cache.put(op[1], _Unserialisable(), 1.0)
+                        else:
+                            cache.put(op[1], _Unserialisable())
+                        bad.append(f"op{n} put-fail({op[1]}): storing a value that cannot be serialised did not raise")
+                        break
+                    except Exception:  # noqa: BLE001
+                        pass
+            elif name == "put":
                 k = op[1]
                 v = f"v{n}"
                 if kind == "hybrid":
@@ -378,6 +397,23 @@ def _cases_shared(tier, rng):
                            "ops": [rng.choice(alpha) for _ in range(rng.randint(5, 14))]}
 
 
+def _cases_failed_put(tier, rng):
+    """Histories with puts that fail while serialising, for the configurations that serialise on put."""
+    for kind, cfg in (("lru", {"shared": True, "cloudpickle": True}), ("hybrid", {"shared": True, "cloudpickle": True}),
+                      ("disk", {"with_lru": True}), ("disk", {"with_lru": False})):
+        alpha = _alphabet(kind) + [("put-fail", k) for k in KEYS] * 2
+        for ms in (1, 2, 3):
+            for _ in range(2 if tier == "quick" else 20):
+                ops = [rng.choice(alpha) for _ in range(rng.randint(5, 12))]
+                # (directed: a failed put onto a resident key, then reads and further puts)
+                ops = [_put(kind, "a"), ("put-fail", "a"), ("get", "a"), _put(kind, "b")] + ops
+                yield {"kind": kind, "cfg": {"max_size": ms, **cfg}, "ops": ops}
+
+
+def _put(kind, k):
+    return ("put", k, 1.0) if kind == "hybrid" else ("put", k)
+
+
 def _cases_handles(tier, rng):
     """shared=True used through two handles (the original and its pickled copy, which is what a worker process gets);
     and the lock discipline on the state that the handles share."""
@@ -445,6 +481,8 @@ def bounded_checks():
     out.append(("shared-handles-and-lock-discipline", Check("shared-handles-and-lock-discipline", _cases_handles, _check,
                                                             RULE + " (two handles on one shared cache; modifications "
                                                             "only under the lock)", shards=6, **kw)))
+    out.append(("failed-puts-are-no-puts", Check("failed-puts-are-no-puts", _cases_failed_put, _check,
+                                                 RULE + " + puts of a value that cannot be serialised", shards=2)))
     out.append(("disk-vs-model", Check("disk-vs-model", _cases_disk, _check, RULE + " + reopen(max_size)", shards=4,
                                        **kw)))
     return out
